@@ -1291,7 +1291,9 @@ impl<'t> Captures<'t> {
                 end: span.end,
             }),
             CapturesImpl::Fancy { text, ref saves } => {
-                let slot = i * 2;
+                // `i` is supplied by the caller (or parsed from a replacement template), so `i * 2`
+                // could overflow
+                let slot = i.checked_mul(2)?;
                 if slot >= saves.len() {
                     return None;
                 }
